@@ -1089,6 +1089,10 @@ class Frame:
             if isinstance(res, PW):
                 return g_or(*[g_and(g, v) for g, v in res.cases])
             return res
+        if isinstance(a, G) and isinstance(b, G) and isinstance(op, (ast.Eq, ast.NotEq, ast.Is, ast.IsNot)):
+            # two truth values compared: `(turn > 0) == lower`
+            same = g_or(g_and(a, b), g_and(g_not(a), g_not(b)))
+            return same if isinstance(op, (ast.Eq, ast.Is)) else g_not(same)
         if isinstance(op, (ast.Is, ast.IsNot, ast.In, ast.NotIn)) or isinstance(a, (Obj, G)) or isinstance(b, (Obj, G)):
             ka, kb = vkey(a), vkey(b)
             if isinstance(op, (ast.Is, ast.Eq)) or (opname == "==" ):
